@@ -1,15 +1,27 @@
 """C02 — BPTC(196,96): encode / decode round trip, repair transparency, every error of weight <= 2 repaired
 (DESIGN §5 C02).  Theorems: lean/DmrVerif/Props/C02{,a,b,c}.lean; model: Model/Bptc.lean, and for
 histories of calls (every entry point of the class, related inputs of both accepted lengths, objects
-kept and overwritten by the caller) Model/BptcHist.lean."""
+kept and overwritten by the caller — bit by bit or as a whole, in place, with contents RELATED to what
+the object held before —, streaks of unrepairable frames / raising calls before a correctable frame)
+Model/BptcHist.lean.  A fixed small sample of the histories runs again under other ambient states of
+the interpreter (python -O child, DEBUG logging, failing sys.stdout, reseeded global random)."""
+import contextlib
+import io
 import itertools
+import json
+import logging
+import os
+import queue
+import random as _random
+import subprocess
 import sys
+import threading
 import types
 
 import numpy
-from bitarray import bitarray
+from bitarray import bitarray, frozenbitarray
 
-from common import BIN, bits_str, impl_error, sh
+from common import BIN, VERIF, bits_str, impl_error, sh
 
 PROP = "C02"
 MODULES = ["C02", "C02a", "C02b", "C02c"]
@@ -73,6 +85,38 @@ def bptc():
     return BPTC19696
 
 
+class Background:
+    """the model driver is a process of its own: batches of the correspondence are piped through it by ONE worker
+    thread, in the order they were handed in, while this process goes on calling the real code; join() before the
+    run returns (an infrastructure error of the driver is raised there)"""
+
+    def __init__(self, ctx):
+        self.ctx, self.q, self.err = ctx, queue.Queue(), None
+        self.t = threading.Thread(target=self._work, daemon=True)
+        self.t.start()
+
+    def _work(self):
+        while True:
+            job = self.q.get()
+            if job is None:
+                return
+            if self.err is None:
+                try:
+                    self.ctx.correspond(*job)
+                except BaseException as e:  # noqa
+                    self.err = e
+
+    def submit(self, component, pairs):
+        if pairs:
+            self.q.put((component, pairs))
+
+    def join(self):
+        self.q.put(None)
+        self.t.join()
+        if self.err is not None:
+            raise self.err
+
+
 def call(fn, *a):
     """canonical observable of one call of the real code: bit string, or ERR <ClassName>"""
     try:
@@ -111,6 +155,7 @@ class Run:
     def __init__(self, ctx):
         self.ctx = ctx
         self.B = bptc()
+        self.bg = Background(ctx)
         self.corr = {"encode": [], "data": [], "repair": []}
         self.enc_cache = {}
         self.enc_sent = 0
@@ -169,8 +214,7 @@ class Run:
         self.enc_sent = len(items)
         for name, pairs in (("encode", enc + self.corr["encode"]), ("deinterleave_data_bits", self.corr["data"]),
                             ("repair_if_necessary", self.corr["repair"])):
-            if pairs:
-                ctx.correspond(name, pairs)
+            self.bg.submit(name, pairs)
         self.corr = {"encode": [], "data": [], "repair": []}
 
 
@@ -217,10 +261,18 @@ def patterns_for(rng, by_rc, n: int):
 #
 #   encode A | data R A | repair A | deint A | make | fill @t A      calls; each pushes exactly one handle
 #   flip @k i | setall @k v                                           the caller overwrites a kept object
+#   put @k A                                                          the caller overwrites a kept object IN PLACE with
+#                                                                     the bits of A (buf[:] = … / buf.clear(); buf.extend(…))
+#   new A                                                             a bitarray the caller made itself; pushes a handle
+#   x NAME A                                                          a call outside the modelled domain (argument of a wrong
+#                                                                     type, non-default mode; XCALLS) built from the bits A;
+#                                                                     pushes an empty handle; compared with the same call on a
+#                                                                     new copy of the class only (the model sees "nop+")
 #   read @k | nop | nop+                                              (nop+ pushes an empty handle)
 #
-# A = B:0101… / L:0101… (a new bitarray in a big / little-endian container, "-" = empty) or @k (the kept
-# object itself).  A trailing token ?=0101… is what the property promises for that call (it is not sent
+# A = B:0101… / L:0101… (a new bitarray in a big / little-endian container, "-" = empty), F:0101… (a
+# frozenbitarray), R:0101… (a read-only bitarray over an imported bytes buffer when the length is a multiple
+# of 8, else a frozenbitarray) or @k (the kept object itself).  A trailing token ?=0101… is what the property promises for that call (it is not sent
 # to the model).  The same lines, prefixed "bh.", are the protocol of the stateful model
 # (Model/BptcHist.lean: results are new objects, every call is the history-free function of its arguments).
 # ======================================================================================================
@@ -228,6 +280,54 @@ CALL_OPS = {"encode": (1,), "data": (2,), "repair": (1,), "deint": (1,), "make":
 METHOD = {"encode": "encode", "data": "deinterleave_data_bits", "repair": "repair_if_necessary",
           "deint": "deinterleave_all_bits", "make": "make_encoding_table", "fill": "fill_encoding_table"}
 WANT_KIND = {"encode": "encode", "repair": "repair-alters-codeword"}
+PUSH_OPS = set(CALL_OPS) | {"new", "x"}
+# calls outside the modelled domain: most raise; what matters is that they leave nothing behind
+XCALLS = {
+    "encode-none": lambda C, b: C.encode(None),
+    "encode-str": lambda C, b: C.encode(b.to01()),
+    "encode-bytes": lambda C, b: C.encode(b.tobytes()),
+    "encode-list": lambda C, b: C.encode(b.tolist()),
+    "encode-int": lambda C, b: C.encode(len(b)),
+    "data-none": lambda C, b: C.deinterleave_data_bits(None),
+    "data-str": lambda C, b: C.deinterleave_data_bits(b.to01()),
+    "data-bytes": lambda C, b: C.deinterleave_data_bits(b.tobytes(), True),
+    "data-list": lambda C, b: C.deinterleave_data_bits(b.tolist()),
+    "data-array": lambda C, b: C.deinterleave_data_bits(numpy.array(b.tolist(), dtype=int)),
+    "data-read-only-array": lambda C, b: C.deinterleave_data_bits(_read_only(numpy.array(b.tolist(), dtype=int))),
+    "data-repair-none": lambda C, b: C.deinterleave_data_bits(b, None),
+    "data-repair-str": lambda C, b: C.deinterleave_data_bits(b, "no"),
+    "data-keywords": lambda C, b: C.deinterleave_data_bits(bits=b, repair_if_necessary=True),
+    "repair-none": lambda C, b: C.repair_if_necessary(None),
+    "repair-list": lambda C, b: C.repair_if_necessary(b.tolist()),
+    "repair-str": lambda C, b: C.repair_if_necessary(b.to01()),
+    "repair-deinterleaved": lambda C, b: C.repair_if_necessary(b, True),
+    "repair-deinterleaved-of-deint": lambda C, b: C.repair_if_necessary(C.deinterleave_all_bits(b), deinterleaved=True),
+    "deint-none": lambda C, b: C.deinterleave_all_bits(None),
+    "deint-list": lambda C, b: C.deinterleave_all_bits(b.tolist()),
+    "fill-none-table": lambda C, b: C.fill_encoding_table(None, b),
+    "fill-list-table": lambda C, b: C.fill_encoding_table([[0] * 15 for _ in range(13)], b),
+    "fill-small-table": lambda C, b: C.fill_encoding_table(numpy.zeros((3, 3), dtype=int), b),
+    "fill-read-only-table": lambda C, b: C.fill_encoding_table(_read_only(numpy.zeros((13, 15), dtype=int)), b),
+    "fill-bits-none": lambda C, b: C.fill_encoding_table(C.make_encoding_table(), None),
+}
+
+
+def _read_only(a):
+    a.setflags(write=False)
+    return a
+
+
+def xcall(cls, name, bits):
+    try:
+        r = XCALLS[name](cls, bits)
+    except BaseException as e:  # noqa
+        return impl_error(e)
+    try:
+        if isinstance(r, (bitarray, numpy.ndarray)):
+            return "value " + canon_obj(r)
+        return "value " + type(r).__name__
+    except Exception:  # noqa
+        return "value ?"
 _FRESH = {}
 
 
@@ -299,13 +399,34 @@ class Hist:
         self.cls, self.fresh = cls, fresh
         self.steps, self.lines, self.bad, self.enc = [], [], [], []
         self.held, self.exp, self.owner, self.no_read = [], [], [], set()
+        self.xouts = []  # results of the calls outside the modelled domain (x), in order
+        self.stale = 0  # promises that did not apply to what the argument held when the call was made
+
+    def _promise_applies(self, op, toks, content, want):
+        """the property promises `want` for this call only if the argument holds a word within two inverted bits of
+        encode(want) (decoder with repair), exactly encode(want) (without repair), exactly `want` (repair)"""
+        if op == "repair":
+            return content == want
+        if op != "data" or len(content) != 196:
+            return True
+        F = (self.fresh() if self.fresh is not None else fresh_class()) or self.cls
+        c = call(F.encode, bitarray(want))
+        if len(c) != 196 or c.startswith("ERR"):
+            return True
+        d = sum(1 for a, b in zip(content, c) if a != b)
+        return d <= 2 if toks[1] == "1" else d == 0
 
     def _arg(self, a: str):
         if a.startswith("@"):
             k = int(a[1:])
             return self.held[k] if k < len(self.held) else None
         e, s = a.split(":", 1)
-        return bitarray("" if s == "-" else s, endian="little" if e == "L" else "big")
+        s = "" if s == "-" else s
+        if e == "F" or (e == "R" and (len(s) % 8 or not s)):
+            return frozenbitarray(s)
+        if e == "R":
+            return bitarray(buffer=bitarray(s, endian="big").tobytes(), endian="big")
+        return bitarray(s, endian="little" if e == "L" else "big")
 
     def _push(self, i, obj, content):
         self.held.append(obj)
@@ -335,6 +456,42 @@ class Hist:
             out = "void"
             if op == "nop+":
                 self._push(i, None, None)
+        elif op == "new":
+            o = self._arg(toks[1])
+            out = "ok"
+            self._push(i, o, canon_obj(o))
+        elif op == "x":
+            o = self._arg(toks[2])
+            got = xcall(self.cls, toks[1], copy_obj(o)) if isinstance(o, bitarray) else "void"
+            F = self.fresh() if self.fresh is not None and isinstance(o, bitarray) else None
+            if F is not None:
+                ref = xcall(F, toks[1], copy_obj(o))
+                if ref != got:
+                    self.bad.append(("history-dependent-result", i, f"the call {toks[1]} returns something else than the same call "
+                                     "made first on a new copy of the class", ref, got))
+            self._push(i, None, None)
+            self.xouts.append(got)
+            toks, out = ["nop+"], "void"
+        elif op == "put":
+            o, src = self._arg(toks[1]), self._arg(toks[2])
+            if o is None or not isinstance(src, bitarray):
+                out = "void"
+            elif not isinstance(o, bitarray) and len(src) != 13 * 15:
+                out = "void"
+            else:
+                out = "ok"
+                try:
+                    v = bitarray(src)
+                    if not isinstance(o, bitarray):
+                        o[:] = numpy.array(v.tolist(), dtype=int).reshape(13, 15)
+                    elif i % 2:
+                        o.clear()
+                        o.extend(v)
+                    else:
+                        o[:] = v
+                except Exception:  # noqa
+                    out = "ERR cannot-overwrite"
+                self._touched(o)
         elif op in ("flip", "setall", "read"):
             o = self._arg(toks[1])
             if o is None:
@@ -380,7 +537,10 @@ class Hist:
                         if not (op == "fill" and p == 0):
                             self.bad.append(("argument-altered", i, f"{METHOD[op]} alters its argument", before[p], cur))
                         self._touched(o)
-                if want is not None and out != want:
+                if want is not None and out != want and not self._promise_applies(op, toks, before[0], want):
+                    # the object no longer holds what the promise was made for (a reduced history dropped an overwrite)
+                    self.stale += 1
+                elif want is not None and out != want:
                     kind = WANT_KIND.get(op) or ("not-corrected" if op == "data" and toks[1] == "1" else "round-trip" if op == "data" else "wrong-result")
                     self.bad.append((kind, i, f"{METHOD[op]} does not return what the property promises for this call", want, out))
                 err = out.startswith("ERR")
@@ -443,7 +603,7 @@ def compress(steps):
         op = toks[0]
         refs = [int(t[1:]) for t in toks[1:] if t.startswith("@")]
         dead = op in ("nop", "nop+") or any(r >= len(alive) or not alive[r] for r in refs)
-        pushes = op in CALL_OPS or op == "nop+"
+        pushes = op in PUSH_OPS or op == "nop+"
         if pushes:
             if not dead:
                 new[len(alive)] = sum(alive)
@@ -460,7 +620,7 @@ def shrink_history(steps, fails):
         if steps[idx][0] in ("nop", "nop+"):
             continue
         cand = list(steps)
-        cand[idx] = ("nop+",) if steps[idx][0] in CALL_OPS else ("nop",)
+        cand[idx] = ("nop+",) if steps[idx][0] in PUSH_OPS else ("nop",)
         if fails(cand):
             steps = cand
     small = compress(steps)
@@ -605,6 +765,15 @@ class Rel:
             return self.block(self.near(), self.r()), None
         return rand_bits(rng, 196), None
 
+    def junk(self):
+        """(name of a call outside the modelled domain, bits it is built from)"""
+        name = self.rng.choice(sorted(XCALLS))
+        if name.startswith(("encode", "fill")):
+            x = self.m if self.rng.random() < 0.6 else self.x196(self.rng.choice(self.X196))
+        else:
+            x = self.air(self.rng.choice(self.AIR))[0]
+        return name, x
+
     def wrong_length(self):
         """(op, argument) with an argument of a length that is not accepted, related to m"""
         rng, m, c = self.rng, self.m, self.c
@@ -629,8 +798,8 @@ class Build:
         self.steps.append(tuple(str(t) for t in toks))
 
 
-def lit(s, little=False):
-    return ("L:" if little else "B:") + (s or "-")
+def lit(s, little=False, kind=None):
+    return (kind or ("L" if little else "B")) + ":" + (s or "-")
 
 
 def primes(rel, rng):
@@ -679,6 +848,16 @@ def primes(rel, rng):
         b.call("fill", f"@{b.call('make')}", lit(rel.m[:-1]))
 
     P.append(("wrong-lengths", wrong))
+
+    def junk(b, n):
+        for _ in range(n):
+            name, x = rel.junk()
+            b.call("x", name, lit(x))
+
+    P.append(("wrong-types:one-call", lambda b: junk(b, 1)))
+    P.append(("wrong-types:four-calls", lambda b: junk(b, 4)))
+    P.append(("non-default-mode:repair-deinterleaved", lambda b: (b.call("x", "repair-deinterleaved", lit(rel.air("cw+e")[0])),
+                                                                  b.call("x", "repair-deinterleaved-of-deint", lit(rel.c)))))
     P.append(("encode-96:reversed-little-endian", lambda b: b.call("encode", lit(rel.m[::-1], True))))
     P.append(("encode-96:little-endian", lambda b: b.call("encode", lit(rel.m, True))))
     P.append(("encode-96:near", lambda b: b.call("encode", lit(rel.near()))))
@@ -720,6 +899,14 @@ def probes(rel, rng):
         b.call("fill", f"@{t}", lit(m))
         b.call("encode", lit(m))
 
+    def read_only(b):
+        b.call("data", 1, lit(rel.air("cw+e")[0], kind="F"), "?=" + m)
+        b.call("data", 0, lit(c, kind="F"), "?=" + m)
+        b.call("repair", lit(c, kind="F"), "?=" + c)
+        h = b.call("encode", lit(m, kind="R"))
+        b.call("data", 1, f"@{h}", "?=" + m)
+        b.call("encode", lit(m, kind="F"))
+
     return [
         ("encode-96", lambda b: b.call("encode", lit(m))),
         ("encode-96-little-endian", lambda b: b.call("encode", lit(m, True))),
@@ -729,6 +916,7 @@ def probes(rel, rng):
         ("repair", repair),
         ("encode-keep-flip-decode", kept),
         ("make-fill-encode", table),
+        ("decode-read-only-arguments", read_only),
     ]
 
 
@@ -756,7 +944,7 @@ def random_history(rng, rels, length):
             w, want = rel.air(rng.choice(Rel.AIR))
             r = 1 if rng.random() < 0.75 else 0
             extra = ["?=" + want] if want is not None and (r == 1 or w == rel.c) else []
-            h = b.call("data", r, lit(w), *extra)
+            h = b.call("data", r, lit(w, kind=rng.choice(("B", "B", "B", "B", "B", "L", "F", "R"))), *extra)
             info[h] = ("bits", 96)
             calls.append(("data", str(r), lit(w)))
         elif k < 0.60:
@@ -777,7 +965,7 @@ def random_history(rng, rels, length):
                 continue
             x = rng.choice([rel.m, rel.near(), rel.x196(rng.choice(Rel.X196)), rel.m[:-1]])
             b.call("fill", f"@{rng.choice(tabs)}", lit(x))
-        elif k < 0.83:
+        elif k < 0.80:
             hs = [h for h, v in info.items()]
             if not hs:
                 continue
@@ -788,6 +976,15 @@ def random_history(rng, rels, length):
             b.do("flip", f"@{h}", p)
             if v[0] == "cw":
                 v[2].symmetric_difference_update({p})
+        elif k < 0.83:
+            # a kept 196-bit object is overwritten in place with a word related to the message
+            hs = [h for h, v in info.items() if v[0] == "cw" or (v[0] == "bits" and v[1] == 196)]
+            if not hs:
+                continue
+            h = rng.choice(hs)
+            w, want = rel.air(rng.choice(Rel.AIR))
+            b.do("put", f"@{h}", lit(w))
+            info[h] = ("cw", rel.m, {p for p in range(196) if w[p] != rel.c[p]}) if want is not None and rel.ok else ("bits", 196)
         elif k < 0.85:
             hs = [h for h, v in info.items() if v[0] != "cw"]
             if hs:
@@ -795,9 +992,12 @@ def random_history(rng, rels, length):
         elif k < 0.87:
             if info:
                 b.do("read", f"@{rng.choice(list(info))}")
-        elif k < 0.91:
+        elif k < 0.895:
             op, x = rel.wrong_length()
             b.call(*(("data", rng.getrandbits(1)) if op == "data" else (op,)), lit("" if x == "-" else x))
+        elif k < 0.91:
+            name, x = rel.junk()
+            b.call("x", name, lit(x))
         elif k < 0.96:
             # a kept object goes in again as an argument
             hs = [h for h, v in info.items() if v[0] != "table"]
@@ -846,6 +1046,621 @@ def message_for_history(rng):
     return "0" * 96, "all-zero"
 
 
+# ======================================================================================================
+# Round 3: a buffer the caller RE-USES.  The caller keeps one bitarray, overwrites it in place and hands the
+# same object in again; the new content is RELATED to the previous one: it agrees with it on a region a
+# careless "same frame as last time?" test might look at (the 96 info positions, the 100 parity / reserved
+# positions, the first / last k bits, one row or column of the table, every other bit), has the same number
+# of ones, the same syndromes, is its repaired version, a neighbouring code word, …  The pairs are found with
+# the GF(2) structure of the code (unit code words from a new copy of the class); what is promised for each
+# call is the property as stated: a word within two inverted bits of encode(m) decodes to m.
+# ======================================================================================================
+def _bits_of(x: int, n: int = 196) -> str:
+    return format(x, f"0{n}b")
+
+
+def _pos_mask(positions) -> int:
+    v = 0
+    for p in positions:
+        v |= 1 << (195 - p)
+    return v
+
+
+def _positions(x: int):
+    return [p for p in range(196) if x >> (195 - p) & 1]
+
+
+class Algebra:
+    """unit code words (as the encoder of a new copy of the class yields them) and what follows by GF(2)-linearity:
+    messages whose code words vanish on a region (kernel of the restriction), low-weight code words.  Used only to FIND
+    related frames; every frame that is used comes from encode itself and is checked against the property as stated."""
+    FIRST_LAST = (8, 16, 32, 64, 96, 98, 128, 144)
+
+    def __init__(self, tabs, by_rc):
+        il, info_keys, res_keys = tabs
+        self.info_pos = [il[k] for k in info_keys]
+        F = fresh_class() or bptc()
+        self.units, self.ok = [], True
+        for i in range(96):
+            c = call(F.encode, bitarray("0" * i + "1" + "0" * (95 - i)))
+            if len(c) != 196 or c.startswith("ERR"):
+                self.ok = False
+                c = "0" * 196
+            self.units.append(int(c, 2))
+        # message masks: bit i of the mask = message bit i
+        self.low = [(1 << i, u) for i, u in enumerate(self.units)]
+        for i in range(96):
+            for j in range(i + 1, 96):
+                x = self.units[i] ^ self.units[j]
+                if bin(x).count("1") <= 16:
+                    self.low.append(((1 << i) | (1 << j), x))
+        info = set(self.info_pos)
+        self.regions = {"info": sorted(info), "parity": [p for p in range(196) if p not in info],
+                        "even": list(range(0, 196, 2)), "odd": list(range(1, 196, 2)), "middle-64": list(range(64, 128))}
+        for k in self.FIRST_LAST:
+            self.regions[f"first-{k}"] = list(range(k))
+            self.regions[f"last-{k}"] = list(range(196 - k, 196))
+        for r in range(13):
+            self.regions[f"row-{r}"] = [by_rc[(r, c)] for c in range(15)]
+        for c in range(15):
+            self.regions[f"col-{c}"] = [by_rc[(r, c)] for r in range(13)]
+        self._found = {}
+
+    def cw(self, mask: int) -> int:
+        x, i = 0, 0
+        while mask:
+            if mask & 1:
+                x ^= self.units[i]
+            mask >>= 1
+            i += 1
+        return x
+
+    @staticmethod
+    def msg(mask: int) -> str:
+        return "".join("1" if mask >> i & 1 else "0" for i in range(96))
+
+    def _solve(self, name):
+        """(kernel basis of the restriction to the region, low-weight code words meeting it in <= 4 positions)"""
+        if name not in self._found:
+            S = _pos_mask(self.regions[name])
+            ker, piv = [], {}
+            for i, u in enumerate(self.units):
+                v, t = u & S, 1 << i
+                while v:
+                    h = v.bit_length()
+                    if h in piv:
+                        v ^= piv[h][0]
+                        t ^= piv[h][1]
+                    else:
+                        piv[h] = (v, t)
+                        break
+                if not v:
+                    ker.append(t)
+            low = []
+            if not ker:
+                best = sorted(self.low, key=lambda dx: bin(dx[1] & S).count("1"))
+                low = [dx for dx in best[:40] if bin(dx[1] & S).count("1") <= 4]
+            self._found[name] = (ker, low)
+        return self._found[name]
+
+    def fixed_points(self, positions):
+        """basis of the messages m with encode(m)[positions] == m (positions: 96 on-air positions)"""
+        ker, piv = [], {}
+        for i, u in enumerate(self.units):
+            v = 1 << i
+            for j, p in enumerate(positions):
+                if u >> (195 - p) & 1:
+                    v ^= 1 << j
+            t = 1 << i
+            while v:
+                h = v.bit_length()
+                if h in piv:
+                    v ^= piv[h][0]
+                    t ^= piv[h][1]
+                else:
+                    piv[h] = (v, t)
+                    break
+            if not v:
+                ker.append(t)
+        return ker
+
+    def difference(self, name, rng):
+        """(message mask d != 0, on-air positions where the code word of d meets the region) or None: adding d to a
+        message changes its code word inside the region in at most 4 positions (which two error patterns of weight
+        <= 2 can take over)"""
+        ker, low = self._solve(name)
+        if ker:
+            d = 0
+            for t in rng.sample(ker, min(len(ker), rng.choice((1, 1, 2, 3)))):
+                d ^= t
+            if d:
+                return d, []
+        if low:
+            d, x = rng.choice(low)
+            return d, _positions(x & _pos_mask(self.regions[name]))
+        return None
+
+
+RELATIONS = ("region", "region", "region", "info", "info", "parity", "same-count", "same-syndromes", "repaired-version",
+             "neighbour", "same-message", "unrelated", "garbage")
+USE_OPS = ("data 1", "data 1", "data 1", "data 1", "repair", "repair", "data 0", "mixed")
+
+
+class Reuse:
+    """histories in which ONE object is overwritten in place with related contents and handed in again"""
+
+    def __init__(self, rel, alg, rng):
+        self.rel, self.alg, self.rng = rel, alg, rng
+        self.cwc = {}
+
+    def cw(self, m):
+        if m not in self.cwc:
+            c = call(self.rel.F.encode, bitarray(m))
+            self.cwc[m] = c if len(c) == 196 and not c.startswith("ERR") else None
+        return self.cwc[m]
+
+    def frame(self, m, e):
+        """(received word, message, error positions) or None"""
+        c = self.cw(m)
+        return None if c is None else (flip(c, e), m, tuple(sorted(e)))
+
+    def xor_msg(self, m, d):
+        return xor_str(m, Algebra.msg(d))
+
+    def extra(self, e, avoid, n=1):
+        """up to n more inverted positions outside `avoid`, total weight <= 2"""
+        e = list(e)
+        free = [p for p in range(196) if p not in avoid and p not in e]
+        while len(e) < 2 and n > 0 and free and self.rng.random() < 0.35:
+            e.append(self.rng.choice(free))
+            n -= 1
+        return e
+
+    def pair(self, m, relation):
+        """two frames (word, message, errors) — message None = nothing is promised — and the name of what they share"""
+        rng, alg = self.rng, self.alg
+        if relation in ("region", "info", "parity"):
+            if relation == "region":
+                # first the kind of region (equal shares), then one of that kind
+                kind = rng.choice(("first", "last", "first", "last", "row", "col", "even", "odd", "middle"))
+                name = rng.choice(sorted(n for n in alg.regions if n.startswith(kind)))
+            else:
+                name = relation
+            got = alg.difference(name, rng) if alg.ok else None
+            if got is not None:
+                d, T = got
+                rng.shuffle(T)
+                if len(T) <= 2:
+                    ea = [p for p in T if rng.random() < 0.6]
+                    eb = [p for p in T if p not in ea]
+                else:
+                    ea, eb = T[:2], T[2:]
+                region = set(alg.regions[name])
+                if rng.random() < 0.25 and len(ea) < 2 and len(eb) < 2:
+                    p = rng.choice([q for q in range(196) if q not in T])  # the same inverted bit in both frames
+                    ea, eb = ea + [p], eb + [p]
+                ea, eb = self.extra(ea, region | set(T)), self.extra(eb, region | set(T))
+                A, B = self.frame(m, ea), self.frame(self.xor_msg(m, d), eb)
+                if A and B:
+                    agree = all(A[0][p] == B[0][p] for p in region)
+                    tag = f"same-{name.split('-')[0]}" + ("" if agree else ":not-reached")
+                    return (A, B, tag) if rng.random() < 0.5 else (B, A, tag)
+            relation = "neighbour"
+        if relation == "same-count":
+            for _ in range(12):
+                m2 = self.rel.near() if rng.random() < 0.5 else rand_bits(rng, 96)
+                ca, cb = self.cw(m), self.cw(m2)
+                if ca is None or cb is None or m2 == m:
+                    continue
+                diff = cb.count("1") - ca.count("1")
+                if abs(diff) > 4:
+                    continue
+                # invert ones of the heavier / zeros of the lighter word until the counts are equal
+                ea, eb = [], []
+                while diff:
+                    if diff > 0:
+                        if len(eb) < 2:
+                            eb.append(rng.choice([p for p in range(196) if cb[p] == "1" and p not in eb]))
+                        else:
+                            ea.append(rng.choice([p for p in range(196) if ca[p] == "0" and p not in ea]))
+                        diff -= 1
+                    else:
+                        if len(ea) < 2:
+                            ea.append(rng.choice([p for p in range(196) if ca[p] == "1" and p not in ea]))
+                        else:
+                            eb.append(rng.choice([p for p in range(196) if cb[p] == "0" and p not in eb]))
+                        diff += 1
+                if len(ea) <= 2 and len(eb) <= 2:
+                    A, B = self.frame(m, ea), self.frame(m2, eb)
+                    return A, B, "same-count" + ("" if A[0].count("1") == B[0].count("1") else ":not-reached")
+            relation = "neighbour"
+        if relation == "same-syndromes":
+            e = self.rel.errors()
+            m2 = self.rel.near() if rng.random() < 0.5 else rand_bits(rng, 96)
+            A, B = self.frame(m, e), self.frame(m2, e)
+            if A and B:
+                return A, B, "same-syndromes"
+        if relation == "repaired-version":
+            e = list(self.rel.errors()) or [rng.randrange(196)]
+            A, B = self.frame(m, e), self.frame(m, ())
+            if A and B:
+                return (A, B, "repaired-version") if rng.random() < 0.7 else (B, A, "damaged-version")
+        if relation == "neighbour" and alg.ok:
+            d, x = rng.choice(alg.low)
+            supp = _positions(x)
+            ea, eb = rng.sample(supp, rng.choice((0, 1, 2))), []
+            eb = rng.sample([p for p in supp if p not in ea], rng.choice((0, 1, 2)))
+            A, B = self.frame(m, ea), self.frame(self.xor_msg(m, d), eb)
+            if A and B:
+                return A, B, "neighbour"
+        if relation == "same-message":
+            A, B = self.frame(m, self.rel.errors()), self.frame(m, self.rel.errors())
+            if A and B:
+                return A, B, "same-message"
+        if relation == "garbage":
+            A = self.frame(m, self.rel.errors())
+            if A:
+                g = (garbage(rng, self.cw(m), self.rel.by_rc), None, None)
+                return (A, g, "garbage-after") if rng.random() < 0.5 else (g, A, "garbage-before")
+        A, B = self.frame(m, self.rel.errors()), self.frame(rand_bits(rng, 96), self.rel.errors())
+        if A and B:
+            return A, B, "unrelated"
+        w = rand_bits(rng, 196)
+        return (w, None, None), (w, None, None), "encoder-fails"
+
+    def use(self, b, h, fr, op):
+        """calls on the kept object h (None: on a new bitarray each time) that now holds the frame fr, with what the
+        property promises; between repeated calls the caller may scribble on the result it got"""
+        rng = self.rng
+        w, m, e = fr
+        if op == "mixed":
+            op = rng.choice(("data 1", "repair", "data 0", "deint", "encode"))
+        n = 1 if rng.random() < 0.7 else 2 if rng.random() < 0.8 else 3
+        for j in range(n):
+            extra = []
+            if m is not None:
+                if op == "data 1" and len(e) <= 2:
+                    extra = ["?=" + m]
+                elif op == "data 0" and not e:
+                    extra = ["?=" + m]
+                elif op == "repair" and not e:
+                    extra = ["?=" + w]
+            arg = f"@{h}" if h is not None else lit(w, kind=rng.choice(("B", "B", "B", "L", "F")))
+            g = b.call(*op.split(" "), arg, *extra)
+            if j + 1 < n and rng.random() < 0.5:
+                if rng.random() < 0.5:
+                    b.do("flip", f"@{g}", rng.randrange(96))
+                else:
+                    b.do("setall", f"@{g}", rng.getrandbits(1))
+        if rng.random() < 0.25:
+            b.call(*rng.choice(("data 1", "repair", "data 0", "deint")).split(" "), f"@{h}" if h is not None else lit(w))
+
+    def overwrite(self, b, h, cur, w):
+        """the caller changes the content of h from cur to w in place"""
+        rng = self.rng
+        diff = [p for p in range(196) if cur is not None and len(cur) == 196 and cur[p] != w[p]]
+        if cur is not None and len(cur) == 196 and len(diff) <= 6 and rng.random() < 0.5:
+            for p in diff:
+                b.do("flip", f"@{h}", p)
+        else:
+            b.do("put", f"@{h}", lit(w, little=rng.random() < 0.1))
+
+    def history(self, rounds):
+        """mode 'one': one buffer overwritten in place; 'two': between the two related contents the caller decodes
+        another buffer of its own (a related frame); 'literal': every frame in a new bitarray that is dropped after the
+        call (the next one usually lives at the same address)"""
+        rng, m = self.rng, self.rel.m
+        b = Build()
+        op = rng.choice(USE_OPS)
+        mode = rng.choice(("one", "one", "one", "two", "two", "literal"))
+        tags = [f"mode-{mode}"]
+        h, cur, h2 = None, None, None
+        for r in range(rounds):
+            A, B, tag = self.pair(m, rng.choice(RELATIONS))
+            tags.append(tag)
+            for fr in (A, B):
+                w = fr[0]
+                if mode == "literal":
+                    self.use(b, None, fr, op)
+                    continue
+                if mode == "two" and fr is B:
+                    # another buffer of the caller goes through the same entry point in between
+                    other = self.pair(m, rng.choice(RELATIONS))[rng.getrandbits(1)]
+                    if h2 is None:
+                        h2 = b.call("new", lit(other[0]))
+                    else:
+                        b.do("put", f"@{h2}", lit(other[0]))
+                    self.use(b, h2, other, op)
+                if h is None:
+                    k = rng.random()
+                    if k < 0.6 or fr[1] is None:
+                        h = b.call("new", lit(w, little=rng.random() < 0.15))
+                    elif k < 0.8:
+                        # the object encode handed out becomes the frame buffer
+                        h = b.call("encode", lit(fr[1]))
+                        cur = self.cw(fr[1])
+                        if cur != w:
+                            self.overwrite(b, h, cur, w)
+                    else:
+                        # the object repair handed out for another frame becomes the frame buffer
+                        h = b.call("repair", lit(self.rel.air("cw+e")[0]))
+                        b.do("put", f"@{h}", lit(w))
+                elif tag == "repaired-version" and fr is B and rng.random() < 0.5:
+                    g = b.call("repair", f"@{h}")
+                    b.do("put", f"@{h}", f"@{g}")
+                else:
+                    self.overwrite(b, h, cur, w)
+                cur = w
+                self.use(b, h, fr, op)
+            if B[1] is not None:
+                m = B[1]
+            elif A[1] is not None:
+                m = A[1]
+        return b.steps, tags
+
+
+def garbage(rng, c, by_rc):
+    """a received word far outside the fault domain of the property (nothing is promised for it)"""
+    k = rng.random()
+    c = c or "0" * 196
+    if k < 0.3:
+        return rand_bits(rng, 196)
+    if k < 0.45:
+        return flip(c, rng.sample(range(196), rng.randint(4, 12)))
+    if k < 0.55:
+        rows, cols = rng.sample(range(13), rng.choice((2, 3))), rng.sample(range(15), rng.choice((2, 3)))
+        return flip(c, [by_rc[(r, q)] for r in rows for q in cols])
+    if k < 0.65:
+        r = rng.randrange(13)
+        return flip(c, [by_rc[(r, q)] for q in range(15)])
+    if k < 0.73:
+        q = rng.randrange(15)
+        return flip(c, [by_rc[(r, q)] for r in range(13)])
+    if k < 0.83:
+        a = rng.randrange(196 - 24)
+        return flip(c, range(a, a + rng.randint(8, 24)))
+    if k < 0.9:
+        return "".join("1" if x == "0" else "0" for x in c)
+    if k < 0.95:
+        return ("01" * 98) if rng.random() < 0.5 else ("1" * 196)
+    return c[98:] + c[:98]
+
+
+def streak_history(rng, rel, n, variant):
+    """n frames that cannot be repaired (or calls that raise), then — with nothing in between — frames the property
+    covers.  variant: 0 literals through the decoder, 1 literals through repair_if_necessary, 2 one frame buffer
+    overwritten in place, 3 garbage alternating with calls that raise (wrong lengths), 4 only decoder calls that raise
+    (wrong lengths), 5 only calls of ONE other kind that raise or lie outside the modelled domain (wrong lengths /
+    wrong types / non-default mode of one entry point)"""
+    b = Build()
+    h = None
+
+    def feed(w, op, extra=()):
+        nonlocal h
+        if variant == 2:
+            if h is None:
+                h = b.call("new", lit(w))
+            else:
+                b.do("put", f"@{h}", lit(w))
+            b.call(*op.split(" "), f"@{h}", *extra)
+        else:
+            b.call(*op.split(" "), lit(w, kind=rng.choice(("B", "B", "B", "B", "L", "F"))), *extra)
+
+    m, c = rel.m, rel.c
+    other = rng.choice(("encode", "repair", "deint", "x:data", "x:repair", "x:encode", "x:fill", "x:"))
+    for i in range(n):
+        if variant == 4:
+            b.call("data", 1 if rng.random() < 0.8 else 0, lit(rng.choice((c[1:], c[:-1], c + "0", m, "", c + c, c[:195] + "01"))))
+        elif variant == 5 and other.startswith("x:"):
+            name = rng.choice(sorted(k for k in XCALLS if k.startswith(other[2:])))
+            b.call("x", name, lit(m if name.startswith(("encode", "fill")) else c))
+        elif variant == 5:
+            b.call(other, lit(rng.choice((m[:-1], m + "0", c[1:], c + "0", "", m[1:]) if other == "encode" else (c[1:], c[:-1], c + "0", m, ""))))
+        elif variant == 3 and i % 2:
+            op, x = rel.wrong_length()
+            b.call(*(("data", 1) if op == "data" else (op,)), lit("" if x == "-" else x))
+        else:
+            feed(garbage(rng, rel.c, rel.by_rc), "repair" if variant == 1 or (variant == 3 and rng.random() < 0.3) else "data 1")
+    info = [rel.il[k] for k in rel.info_keys]
+    for j in range(rng.choice((1, 2, 3))):
+        e = [rng.choice(info)] + ([rng.randrange(196)] if rng.random() < 0.6 else [])
+        e = tuple(sorted(set(e)))
+        if j == 2:
+            e = ()
+        feed(flip(rel.c, e), "data 1", ("?=" + rel.m,))
+    if rng.random() < 0.5:
+        feed(rel.c, "repair", ("?=" + rel.c,))
+        feed(rel.c, "data 0", ("?=" + rel.m,))
+    if variant >= 4 or rng.random() < 0.4:
+        # the encoder after the streak: its code word decodes (and is decoded again by property_checks)
+        g = b.call("encode", lit(rel.m))
+        b.call("data", 1, f"@{g}", "?=" + rel.m)
+    if rng.random() < 0.4:
+        # a second, shorter streak and another frame of the fault domain
+        for i in range(rng.randint(1, 4)):
+            feed(garbage(rng, rel.c, rel.by_rc), "data 1")
+        feed(flip(rel.c, rel.errors()), "data 1", ("?=" + rel.m,))
+    return b.steps
+
+
+def message_reuse_history(rng, rel, alg):
+    """the caller keeps ONE message buffer, overwrites it in place with a related message and encodes it again; every
+    code word handed out is decoded afterwards (property_checks) and right away, clean and with errors put into the
+    returned object in place"""
+    b = Build()
+    m = rel.m
+    k0 = rng.random()
+    if k0 < 0.7:
+        h = b.call("new", lit(m, little=rng.random() < 0.15))
+    else:
+        # the object the decoder handed out becomes the message buffer
+        h = b.call("data", 1, lit(rel.air("cw+e")[0]), "?=" + m)
+    tags = []
+    for r in range(rng.randint(2, 4)):
+        g = b.call("encode", f"@{h}")
+        if len(m) == 96:
+            b.call("data", 1, f"@{g}", "?=" + m)
+            e = rel.errors()
+            if e and rng.random() < 0.6:
+                for p in e:
+                    b.do("flip", f"@{g}", p)
+                b.call("data", 1, f"@{g}", "?=" + m)
+            if rng.random() < 0.3:
+                b.call("repair", f"@{g}")
+        # the next content of the message buffer
+        base = m if len(m) == 96 else m[-96:]
+        k = rng.random()
+        if k < 0.2:
+            n = rng.choice((8, 16, 32, 48, 64, 88, 95))
+            lo, hi = (n, 96) if rng.random() < 0.5 else (0, 96 - n)
+            w = list(base)
+            for p in rng.sample(range(lo, hi), min(hi - lo, rng.choice((1, 1, 2, 3)))):
+                w[p] = "1" if w[p] == "0" else "0"
+            m2, tag = "".join(w), "same-prefix-or-suffix"
+        elif k < 0.35 and "0" in base and "1" in base:
+            w = list(base)
+            i, j = rng.choice([p for p in range(96) if w[p] == "0"]), rng.choice([p for p in range(96) if w[p] == "1"])
+            w[i], w[j] = "1", "0"
+            m2, tag = "".join(w), "same-count"
+        elif k < 0.55 and alg.ok:
+            got = alg.difference(rng.choice(("parity", "parity", "first-64", "last-64", "even", "first-32")), rng)
+            m2, tag = (xor_str(base, Algebra.msg(got[0])), "code-word-agrees-on-a-region") if got else (rel.near(), "near")
+        elif k < 0.65:
+            m2, tag = rel.x196(rng.choice(("value", "prefix", "suffix-rand", "block-R", "block"))), "other-length-same-value"
+        elif k < 0.75:
+            n = rng.choice((1, 8, 95))
+            m2, tag = base[n:] + base[:n], "rotated"
+        elif k < 0.85:
+            m2, tag = rel.near(), "near"
+        else:
+            m2, tag = rand_bits(rng, 96), "unrelated"
+        tags.append(tag)
+        b.do("put", f"@{h}", lit(m2, little=rng.random() < 0.1))
+        m = m2
+        if len(m) != 96 and rng.random() < 0.7:
+            b.call("encode", f"@{h}")
+            m = m[-96:] if rng.random() < 0.5 else rel.near()
+            b.do("put", f"@{h}", lit(m))
+    g = b.call("encode", f"@{h}")
+    if len(m) == 96:
+        b.call("data", 1, f"@{g}", "?=" + m)
+    return b.steps, tags
+
+
+# ======================================================================================================
+# Ambient state of the interpreter / process (round 3, class g): the property says "for every message … the
+# decoder returns exactly that message", so it must not depend on assertions being compiled in, on the root
+# logger's level, on a working sys.stdout or on the state of the global random generators.  A fixed small
+# sample of histories (valid lengths only) is run again under each of these.
+# ======================================================================================================
+class _Raises(io.TextIOBase):
+    def write(self, s):
+        raise OSError("stdout is closed")
+
+    def flush(self):
+        raise OSError("stdout is closed")
+
+
+class _Collect(logging.Handler):
+    """formats every record (so that arguments of debug messages are really evaluated)"""
+
+    def __init__(self):
+        super().__init__(level=logging.DEBUG)
+        self.n = 0
+
+    def emit(self, record):
+        self.n += 1
+        try:
+            record.getMessage()
+        except Exception:  # noqa
+            pass
+
+
+@contextlib.contextmanager
+def ambient(name):
+    if name == "debug-logging":
+        root = logging.getLogger()
+        old, h = root.level, _Collect()
+        olds = {}
+        for n_, lg in list(logging.Logger.manager.loggerDict.items()):
+            if isinstance(lg, logging.Logger) and n_.startswith("okdmr"):
+                olds[lg] = lg.level
+                lg.setLevel(logging.DEBUG)
+        root.addHandler(h)
+        root.setLevel(logging.DEBUG)
+        try:
+            yield
+        finally:
+            root.setLevel(old)
+            root.removeHandler(h)
+            for lg, lv in olds.items():
+                lg.setLevel(lv)
+    elif name == "failing-stdout":
+        old = sys.stdout
+        sys.stdout = _Raises()
+        try:
+            yield
+        finally:
+            sys.stdout = old
+    else:
+        yield
+
+
+def run_hist_ambient(cls, steps, name):
+    """one history on cls under the named ambient state; returns the Hist"""
+    H = Hist(cls, None)
+    if name == "reseeded-random":
+        st, nst = _random.getstate(), numpy.random.get_state()
+        try:
+            for k, s_ in enumerate(steps):
+                _random.seed(k % 3)
+                numpy.random.seed(k % 3)
+                H.step(s_)
+        finally:
+            _random.setstate(st)
+            numpy.random.set_state(nst)
+        return H
+    with ambient(name):
+        H.run(steps)
+    return H
+
+
+CHILD = ("import os, sys; sys.path.insert(0, {h!r}); alt = os.environ.get('VERIF_REPO'); "
+         "alt and sys.path.insert(0, alt); import props.c02 as p; p.child_main()")
+
+
+def child_main():
+    """runs in the child interpreter: histories from stdin (JSON), on ONE class object, results to stdout (JSON)"""
+    job = json.load(sys.stdin)
+    real_out = sys.stdout
+    sys.stdout = io.StringIO()  # whatever the library prints must not corrupt the answer
+    res = {"optimize": sys.flags.optimize, "debug": __debug__, "histories": []}
+    try:
+        if job.get("debug_logging"):
+            logging.basicConfig(level=logging.DEBUG, stream=io.StringIO())
+        B = bptc()
+        for n, lines in enumerate(job["histories"]):
+            # the first history is the first use of the class in a new process; the others run on new copies of it
+            H = Hist(B if n == 0 else (fresh_class() or B), None).run(steps_parse(lines))
+            res["histories"].append({"outs": [o for _, o in H.lines], "bad": [list(x) for x in H.bad]})
+    except BaseException as e:  # noqa
+        res["error"] = impl_error(e)
+    sys.stdout = real_out
+    json.dump(res, sys.stdout)
+
+
+def run_child(histories, flags=("-O",), debug_logging=False, timeout=300):
+    """the histories in a child interpreter started with `flags`; None when the child cannot be run"""
+    cmd = [sys.executable, *flags, "-c", CHILD.format(h=os.path.join(VERIF, "harness"))]
+    try:
+        p = subprocess.run(cmd, input=json.dumps({"histories": [steps_str(h) for h in histories], "debug_logging": debug_logging}),
+                           capture_output=True, text=True, timeout=timeout, cwd=VERIF)
+        return json.loads(p.stdout)
+    except Exception as e:  # noqa
+        return {"error": f"child: {type(e).__name__}"}
+
+
+
 class Histories:
     """runs histories on the class under test (one long-lived class object for the whole run) and reports"""
 
@@ -862,6 +1677,7 @@ class Histories:
         self.tabs = (il, info_keys, res_keys)
         self.lines = []
         self.pending = []
+        self.pool = {}  # kind -> histories whose calls all have valid lengths (for the ambient-state sample)
 
     def rel(self, m):
         return Rel(m, self.ctx.rng, self.tabs, self.by_rc)
@@ -880,9 +1696,18 @@ class Histories:
         out.append(rel.errors())
         return out
 
-    def run(self, steps, rel, tag, sample=False):
+    def run(self, steps, rel, tag, sample=False, new_copy=False, pool=None, cap=0):
         ctx, B = self.ctx, self.R.B
+        if new_copy:
+            # the first calls ever made on a class object are those of this history
+            C = fresh_class()
+            if C is not None:
+                B = C
+                ctx.count("hist:first-calls-on-a-new-copy")
         H = Hist(B, fresh_class).run(steps)
+        if pool is not None and len(self.pool.setdefault(pool, [])) < cap and \
+                not any(o.startswith("ERR") or o == "void" for _, o in H.lines):
+            self.pool[pool].append(list(steps))
         pats = self.patterns(rel)
         pbad = property_checks(H, B, pats)
         H.finish()
@@ -892,11 +1717,15 @@ class Histories:
         ctx.count("hist:steps", len(steps))
         ctx.count("hist:kept-objects", sum(1 for o in H.held if o is not None))
         ctx.count("hist:code-words-re-verified", len(H.enc))
+        if H.stale:
+            ctx.count("hist:promise-not-applicable", H.stale)
         for st in steps:
             if st[-1].startswith("?="):
                 ctx.count("hist:calls-with-promised-result")
             if st[0] in CALL_OPS and any(t.startswith("@") for t in st[1:]) and st[0] != "fill":
                 ctx.count("hist:kept-object-as-argument")
+            if st[0] == "put":
+                ctx.count("hist:overwritten-in-place")
         self.lines.append(("bh.reset", "ok"))
         self.lines += H.lines
         n = 0
@@ -942,7 +1771,7 @@ class Histories:
     def flush(self):
         ctx = self.ctx
         if self.lines and not ctx.search_only and ctx.driver_ok:
-            ctx.correspond("history", self.lines)
+            self.R.bg.submit("history", self.lines)
         self.lines = []
 
 
@@ -964,8 +1793,46 @@ def run_histories(ctx, R, by_rc):
                 probes(rel, rng)[iq][1](b)
                 ctx.count(f"hist:message:{shape}")
                 ctx.count(f"hist:before:{np_.split(':')[0]}")
-                Hs.run(b.steps, rel, "pairwise", sample=(s == 0 and (ip, iq) in ((0, 0), (11, 6))))
+                Hs.run(b.steps, rel, "pairwise", sample=(s == 0 and (ip, iq) in ((0, 0), (11, 6))),
+                       pool="pairwise", cap=24 if (ip * 7 + iq) % 5 == 0 else 0)
         Hs.flush()
+    # ---- one buffer overwritten in place with RELATED contents and handed in again (frames, then messages)
+    alg = Algebra(Hs.tabs, by_rc)
+    cap = 1 if not ctx.thorough() else 4
+    n_reuse = (170 if not ctx.thorough() else 2400) * boost
+    for i in range(n_reuse):
+        m, shape = message_for_history(rng)
+        rel = Hs.rel(m)
+        steps, tags = Reuse(rel, alg, rng).history(rng.choice((1, 2, 2, 3)))
+        ctx.count(f"hist:message:{shape}")
+        for t in tags:
+            ctx.count(f"hist:reuse:{t}")
+        Hs.run(steps, rel, "buffer-reuse", sample=(i == 0), new_copy=(i % 8 == 7), pool="reuse", cap=40 * cap)
+        if i % 200 == 199:
+            Hs.flush()
+    n_msg = (60 if not ctx.thorough() else 800) * boost
+    for i in range(n_msg):
+        m, shape = message_for_history(rng)
+        rel = Hs.rel(m)
+        steps, tags = message_reuse_history(rng, rel, alg)
+        ctx.count(f"hist:message:{shape}")
+        for t in tags:
+            ctx.count(f"hist:message-reuse:{t}")
+        Hs.run(steps, rel, "message-buffer-reuse", sample=(i == 0), new_copy=(i % 8 == 7), pool="message-reuse", cap=20 * cap)
+    Hs.flush()
+    # ---- streaks of 1..8 frames that cannot be repaired (or calls that raise), then frames the property covers
+    reps = (1 if not ctx.thorough() else 8) * boost
+    for rep in range(reps):
+        for n in range(1, 9):
+            for variant in range(6):
+                m, shape = message_for_history(rng)
+                rel = Hs.rel(m)
+                steps = streak_history(rng, rel, n, variant)
+                ctx.count(f"hist:noise-streak:{n}")
+                ctx.count(f"hist:noise-streak-variant:{variant}")
+                Hs.run(steps, rel, "noise-streak", sample=(rep == 0 and n == 3 and variant == 0),
+                       new_copy=((n + variant + rep) % 3 == 0), pool="streak", cap=16 * cap if variant < 3 else 0)
+    Hs.flush()
     # ---- random interleavings
     n_rand = (500 if not ctx.thorough() else 6000) * boost
     for i in range(n_rand):
@@ -978,8 +1845,199 @@ def run_histories(ctx, R, by_rc):
         Hs.run(steps, rels[0], "random-interleaving", sample=(i == 0))
         if i % 200 == 199:
             Hs.flush()
+    # ---- long streaks (a back-off that needs more than 8 frames)
+    for n in ((12, 16, 32, 64) if not ctx.thorough() else (12, 16, 32, 64, 100, 128, 256, 300, 1000, 1030)):
+        for variant in (0, 4) if n <= 64 else (0,):
+            m, shape = message_for_history(rng)
+            rel = Hs.rel(m)
+            ctx.count("hist:noise-streak:long")
+            Hs.run(streak_history(rng, rel, n, variant), rel, "noise-streak")
+    Hs.flush()
+    run_ambient(ctx, Hs)
     Hs.flush()
     Hs.emit()
+
+
+PROMISE_KINDS = ("not-corrected", "round-trip", "repair-alters-codeword", "encode")
+
+
+def ambient_compare(steps, outs, bad, name):
+    """failures of one history run under an ambient state: what the property promises (bad), and every result against
+    the same history run in the plain state on a new copy of the class.  -> [(kind, step, what, expected, actual)]"""
+    res = []
+    for b in bad:
+        if b[0] in PROMISE_KINDS:
+            res.append((b[0], b[1], b[2], b[3], b[4]))
+    C = fresh_class()
+    if C is not None and not res:
+        ref = [o for _, o in Hist(C, None).run(steps).lines]
+        for i, (a, r) in enumerate(zip(outs, ref)):
+            if a != r:
+                res.append(("ambient-dependent-result", i, f"step {i} ({' '.join(steps[i])[:50]}) returns something else than in the "
+                            "plain state of the interpreter", r, a))
+                break
+    return res
+
+
+def run_ambient(ctx, Hs):
+    """a fixed small sample of the histories (valid lengths only), each on a new copy of the class, under: root logger at
+    DEBUG, sys.stdout that raises, global random generators reseeded before every step (in this process), and — two
+    child processes per run — `python -O` (assertions stripped) and `python -O` with DEBUG logging configured
+    before the library is imported"""
+    sample = []
+    for kind in ("reuse", "message-reuse", "streak", "pairwise"):
+        sample += Hs.pool.get(kind, [])
+    if not sample:
+        return
+    reported = {}
+
+    def report(steps, name, found):
+        kind, i, what, exp, act = found
+        C = fresh_class()
+        if C is not None and kind in PROMISE_KINDS and any(b[0] == kind for b in Hist(C, None).run(steps[: i + 1]).bad):
+            # fails in the plain state as well: an ordinary history (reduced and reported with the others)
+            Hs.pending.append((0, kind, steps[: i + 1], what, exp, act, None, None))
+            return
+        reported[name] = reported.get(name, 0) + 1
+        if reported[name] <= 3:
+            ctx.fail(kind, {"history": steps_str(steps[: i + 1]), "ambient": name}, f"{what} [{name}]", expected=exp, actual=act)
+
+    per = max(1, min(len(sample), 30 if not ctx.thorough() else 120))
+    for a, name in enumerate(("debug-logging", "failing-stdout", "reseeded-random")):
+        for j in range(per):
+            steps = sample[(a * 7 + j * 3) % len(sample)]
+            H = run_hist_ambient(fresh_class() or Hs.R.B, steps, name)
+            ctx.case(("ambient", name, tuple(steps)))
+            ctx.count(f"ambient:{name}")
+            Hs.lines.append(("bh.reset", "ok"))
+            Hs.lines += H.lines
+            for found in ambient_compare(steps, [o for _, o in H.lines], H.bad, name)[:1]:
+                report(steps, name, found)
+    for flags, dbg, name in ((("-O",), False, "python -O"), (("-O",), True, "python -O, DEBUG logging")):
+        part = sample if not dbg else sample[:: 4]
+        res = run_child(part, flags, dbg)
+        hs = res.get("histories") or []
+        if not hs:
+            ctx.count(f"ambient:{name}:child-failed")
+            # the library cannot even be used in that interpreter: the first history is the witness
+            ctx.fail("round-trip", {"history": steps_str(part[0]), "ambient": name},
+                     f"the child interpreter could not run the sample [{name}]", expected="results", actual=str(res.get("error"))[:200])
+            continue
+        if not res.get("optimize"):
+            ctx.notes.append(f"ambient {name}: the child interpreter did not run optimised; sample skipped")
+            continue
+        for steps, r in zip(part, hs):
+            ctx.case(("ambient", name, tuple(steps)))
+            ctx.count(f"ambient:{name}")
+            for found in ambient_compare(steps, r["outs"], [tuple(x) for x in r["bad"]], name)[:1]:
+                report(steps, name, found)
+        if len(hs) < len(part):
+            ctx.fail("round-trip", {"history": steps_str(part[len(hs)]), "ambient": name},
+                     f"the child interpreter stopped at this history [{name}]", expected="results", actual=str(res.get("error"))[:200])
+
+
+def correlated(ctx, R, by_rc):
+    rng = ctx.rng
+    n = ctx.budget(48, 600)
+    for i in range(n):
+        p = rng.randrange(196)
+        byte = format(p, "08b")
+        k = i % 6
+        if k == 0:
+            m = byte + rand_bits(rng, 88)
+        elif k == 1:
+            m = rand_bits(rng, 88) + byte
+        elif k == 2:
+            m = rand_bits(rng, 44) + byte + rand_bits(rng, 44)
+        else:
+            m = rand_bits(rng, 96)
+        e = [p]
+        if k == 3:
+            # the first / last byte of the RECEIVED word is the position of an inverted bit
+            c = R.encode(m)
+            if len(c) == 196:
+                for _ in range(64):
+                    m = rand_bits(rng, 96)
+                    c = R.encode(m)
+                    q = int(c[:8], 2) if i % 2 else int(c[-8:], 2)
+                    if len(c) == 196 and 8 <= q < 188:
+                        e = [q]
+                        break
+        elif k == 4:
+            # table cell (row, column) = (first nibble, second nibble) of the message
+            r_, c_ = int(m[:4], 2) % 13, int(m[4:8], 2) % 15
+            e = [by_rc[(r_, c_)]]
+        elif k == 5:
+            # the inverted positions are where the message has its first two ones (as on-air positions)
+            ones = [j for j in range(96) if m[j] == "1"][:2]
+            e = ones or [p]
+        if rng.random() < 0.5 and len(e) < 2:
+            e.append(rng.choice([q for q in range(196) if q not in e]))
+        R.check(m, e, "correlated:position-in-content", corr_level=1)
+    # messages that reappear inside their own code word
+    alg = Algebra(({k: v[0] for k, v in R.B.INTERLEAVING_INDICES.items()},
+                   [k for k, v in R.B.INTERLEAVING_INDICES.items() if not v[3] and not v[4]], []), by_rc)
+    if alg.ok:
+        for name, positions in (("first-96", list(range(96))), ("last-96", list(range(100, 196))), ("info-cells", alg.info_pos),
+                                ("middle-96", list(range(50, 146))), ("reversed-last-96", list(range(195, 99, -1)))):
+            ker = alg.fixed_points(positions)
+            ctx.count(f"correlated:fixed-points:{name}", len(ker))
+            for _ in range(min(len(ker) * 2, ctx.budget(4, 24))):
+                d = 0
+                for t in rng.sample(ker, rng.randint(1, len(ker))):
+                    d ^= t
+                if d:
+                    m = Algebra.msg(d)
+                    for e, tag in patterns_for(rng, by_rc, 4):
+                        if len(e) <= 2:
+                            R.check(m, e, "correlated:message-inside-its-code-word", corr_level=1)
+
+
+def scale_stream(ctx, R):
+    """N distinct messages encoded one after the other on the long-lived class (N past 8192; thorough past 65536), each
+    decoded without repair, every 4th with 1-2 inverted bits and repair; then the earliest and the latest are encoded
+    again and must come out as before"""
+    rng, B = ctx.rng, R.B
+    n = 8300 if not ctx.thorough() else 66000
+    if ctx.boost > 1:
+        n = 8300 if not ctx.thorough() else 20000  # the stream is about the count, not about a changed source
+    base = rng.getrandbits(96)
+    kept = {}
+    bad = 0
+    for i in range(n):
+        m = format((base + i * 0x9E3779B97F4A7C15F39CC0605CEDC835) % (1 << 96), "096b")
+        c = call(B.encode, bitarray(m))
+        if i < 64 or i >= n - 64:
+            kept[m] = c
+        ctx.count("scale:encode")
+        if len(c) != 196 or c.startswith("ERR"):
+            bad += 1
+            if bad <= 3:
+                ctx.fail("encode", {"message": m, "error_positions": [], "stream_index": i}, "encode of a 96-bit message does not return 196 bits "
+                         f"(message {i} of a stream of distinct messages)", expected="196 bits", actual=c[:40])
+            continue
+        d0 = call(B.deinterleave_data_bits, bitarray(c), False)
+        if d0 != m:
+            bad += 1
+            if bad <= 3:
+                ctx.fail("round-trip", {"message": m, "error_positions": [], "stream_index": i},
+                         f"decoder without repair does not return the message (message {i} of a stream of distinct messages)", expected=m, actual=d0)
+        if i % 4 == 0:
+            e = sorted(rng.sample(range(196), 1 + (i // 4) % 2))
+            d1 = call(B.deinterleave_data_bits, bitarray(flip(c, e)), True)
+            ctx.count("scale:decode-with-repair")
+            if d1 != m:
+                bad += 1
+                if bad <= 3:
+                    ctx.fail("not-corrected", {"message": m, "error_positions": e, "stream_index": i},
+                             f"decoder with repair does not return the message (message {i} of a stream of distinct messages)", expected=m, actual=d1)
+    ctx.case(("scale-stream", n, base))
+    for m, c in kept.items():
+        c2 = call(B.encode, bitarray(m))
+        ctx.count("scale:encoded-again")
+        if c2 != c:
+            ctx.fail("encode", {"message": m, "error_positions": [], "after_stream_of": n},
+                     "encode returns another code word for the same message after a long stream of other messages", expected=c, actual=c2)
 
 
 def run(ctx):
@@ -998,7 +2056,24 @@ def run(ctx):
         "again, overwritten and calls repeated.  Every call is compared with the same call made first on a new copy of the "
         "class and with the stateful model; arguments and kept objects are re-read after every step; every code word "
         "handed out for a 96-bit message is decoded afterwards (clean, repair, 4 error patterns of weight <= 2).  A case is "
-        "one history."
+        "one history.  Round 3: (a) ONE buffer of the caller (its own bitarray, or an object encode / repair handed out) is "
+        "overwritten IN PLACE (buf[:] = ..., clear+extend, single bit flips) and handed in again, the two contents being a pair "
+        "found with the GF(2) structure of the code (unit code words, kernel of the restriction of the code to a region, "
+        "low-weight code words): same 96 info bits / same 100 parity+reserved bits / same first or last 8..144 bits / same "
+        "row or column of the table / same even or odd bits but another message, same number of ones, same syndromes, the "
+        "repaired / damaged version, a neighbouring code word, same message with other errors, unrelated, garbage; through "
+        "the decoder with and without repair, repair_if_necessary, deinterleave_all_bits, encode; one buffer, two buffers "
+        "alternating, or new bitarrays that are dropped after each call; results scribbled on between repeated calls.  (b) ONE "
+        "message buffer overwritten in place with a related message (same prefix / suffix, same count, code word agreeing on "
+        "a region, other accepted length with the same value, rotated) and encoded again.  (c) streaks of 1..8 (and 12..64; "
+        "thorough up to 1030) frames that cannot be repaired (random, 4-12 errors, error squares, whole row / column, burst, "
+        "inverted, constant) or calls that raise (wrong lengths, wrong types, non-default mode; one entry point or mixed) "
+        "immediately followed by frames within two inverted bits of a code word; a share of all of these runs on a new copy "
+        "of the class (its first calls ever).  (d) messages / received words whose bytes equal an inverted position, messages "
+        "that reappear as a slice of their own code word.  (e) a stream of 8300 (thorough 66000) distinct messages through "
+        "the long-lived class.  (f) ambient: a fixed sample of the histories with valid lengths again with the root logger "
+        "at DEBUG, sys.stdout that raises, global random reseeded before every step, and in child interpreters `python -O` "
+        "and `python -O` with DEBUG logging configured before import; results compared with the promise and with the plain run."
     )
     ctx.trusted_base += [
         "Lean 4.33 kernel",
@@ -1009,14 +2084,28 @@ def run(ctx):
         "on the table it is given) tied to the code by this run's correspondence on histories (bh.* lines)",
         "the 'first call' reference of the history probes is the module source executed again in a module object of its own "
         "(state kept in the Hamming classes or other modules would be shared with it; the model comparison does not depend on it)",
+        "the related frames of the buffer re-use histories are FOUND by GF(2)-linear algebra on the unit code words of a new copy of "
+        "the class; what is promised for them is only the property as stated (a word within two inverted bits of encode(m) decodes to "
+        "m, checked against the content the object really holds when the call is made)",
+        "calls outside the modelled domain (wrong types, repair_if_necessary(deinterleaved=True)) are compared with the same call on a "
+        "new copy of the class only (the model sees a no-op)",
     ]
     ctx.assumptions += [
         "inputs are bitarrays (big-endian containers; little-endian containers with the same bit sequence in the history probes: the entry points index the bits, so the model ignores the container's bit order); messages have 96 bits, received words 196 bits (other lengths: both sides raise/return AssertionError, compared)",
         "make_encoding_table / fill_encoding_table are exercised with 13x15 integer tables holding 0/1 only",
         "repair_if_necessary is modelled for deinterleaved=False only (the library never passes True)",
+        "ambient states are sampled, not enumerated: python -O, DEBUG logging, failing sys.stdout, reseeded random; forced thread "
+        "interleavings are out of scope (the property does not mention concurrency)",
     ]
     rng = ctx.rng
     R = Run(ctx)
+    try:
+        _run(ctx, R, rng)
+    finally:
+        R.bg.join()
+
+
+def _run(ctx, R, rng):
     B = R.B
     pos, by_rc = layout()
 
@@ -1077,6 +2166,14 @@ def run(ctx):
             R.check(m, e, tag)
     R.flush()
 
+    # ---------------- correlations between parts of one input: a byte of the message / of the received word that
+    # equals an inverted position, messages that reappear as a slice of their own code word
+    correlated(ctx, R, by_rc)
+    R.flush()
+
+    # ---------------- scale: a stream of distinct messages through the long-lived class (past 8192 / 65536 entries)
+    scale_stream(ctx, R)
+
     # ---------------- histories of calls: every entry point, related inputs of both accepted lengths, kept objects
     run_histories(ctx, R, by_rc)
 
@@ -1099,7 +2196,7 @@ def run(ctx):
             pairs.append((f"bptc.repair {x}", call(B.repair_if_necessary, bitarray(x))))
             ctx.case(("w196", x))
             ctx.count("random-196-bit-word")
-        ctx.correspond("lengths-and-196-bit-branch", pairs)
+        R.bg.submit("lengths-and-196-bit-branch", pairs)
 
     # ---------------- thorough: every pattern of weight <= 2 on several code words
     if ctx.thorough():
@@ -1116,8 +2213,41 @@ def run(ctx):
         ctx.notes.append(f"all {len(allpat)} error patterns of weight <= 2 on {n_words} random code words")
 
 
+def replay_ambient(inp, f, name):
+    """re-run a history under the recorded ambient state (child interpreter / logging / stdout / random)"""
+    steps = steps_parse(inp["history"])
+    if name.startswith("python -O"):
+        res = run_child([steps], ("-O",), "DEBUG" in name)
+        hs = res.get("histories") or []
+        if not hs:
+            print(f"the child interpreter ({name}) could not run the history:", res.get("error"))
+            return 1
+        print(f"child interpreter: sys.flags.optimize={res.get('optimize')} __debug__={res.get('debug')}")
+        outs, bad = hs[0]["outs"], [tuple(x) for x in hs[0]["bad"]]
+    else:
+        H = run_hist_ambient(bptc(), steps, name)
+        outs, bad = [o for _, o in H.lines], H.bad
+    C = fresh_class()
+    ref = [o for _, o in Hist(C, None).run(steps).lines] if C is not None else [None] * len(outs)
+    for i, (st, out) in enumerate(zip(steps, outs)):
+        print(f"step {i:2d}  {' '.join(st)[:150]}")
+        print(f"         implementation [{name}] -> {out}")
+        print(f"         implementation [plain]  -> {ref[i]}" + ("" if ref[i] == out else "      <-- differs"))
+    found = ambient_compare(steps, outs, bad, name)
+    for kind, i, what, exp, act in found:
+        print(f"FAILS [{kind}] at step {i}: {what} [{name}]")
+        print(f"         expected {exp}")
+        print(f"         actual   {act}")
+    if not found:
+        print("the history does not fail under this ambient state in this process")
+    print("recorded:", f.get("what"))
+    return 1 if found else 0
+
+
 def replay_history(inp, f):
     """re-run a history on the real class (this process has not called it before), then the recorded check"""
+    if inp.get("ambient"):
+        return replay_ambient(inp, f, inp["ambient"])
     B = bptc()
     steps = steps_parse(inp["history"])
     H = Hist(B, fresh_class).run(steps)
